@@ -78,8 +78,16 @@ RoundTripInvs(a, b) ==      \* a = first model, b = rebuilt in the other basis
   LET m2  == M2max(a)
       gap == Sub(Sq(a["Mhh1"]), Sq(a["Mhh0"]))
   IN << I("RoundTripSpectrum", \A n \in {"Mhh0", "Mhh1", "MAh1", "MHm1"} : SqClose(b[n], a[n], m2)),
+        \* The mass basis carries the mixing as the double sin(beta-alpha): close to alignment, cos(beta-alpha) =
+        \* sqrt(1 - sba^2) is known only to eps / cos(beta-alpha), and the quartics depend on it through
+        \* M^2 (tan(beta) + cot(beta)) cos(beta-alpha) / v^2.  That loss is in the documented parametrisation, not in the
+        \* code: |d lambda| v^2 cba tb <= 16 eps M^2 (tb^2 + 1) is accepted as well (stated with cba^2 = 1 - sba^2).
         I("RoundTripQuartics", \A n \in {"lambda1", "lambda2", "lambda3", "lambda4", "lambda5"} :
-                                  Le(Mul(E9, Mul(Abs(Sub(b[n], a[n])), a["v_sqr"])), m2)),
+                                  LET d == Mul(Abs(Sub(b[n], a[n])), a["v_sqr"])
+                                      tb == Abs(a["tan_beta"])
+                                  IN \/ Le(Mul(E9, d), m2)
+                                     \/ Le(Mul(Sq(Mul(d, tb)), Sub(One, Sq(a["sba"]))),
+                                           Sq(Mul(Mul(OfInt(16), Eps), Mul(m2, Add(Sq(tb), One)))))),
         I("RoundTripAngle", SbaClose(b["sba"], a["sba"], gap, m2)) >>
 
 Init == l = 1 /\ built = [e |-> "none"] /\ viol = << >> /\ nchecked = 0
